@@ -561,13 +561,14 @@ func (mem *CListMempool) ReapMaxBytesMaxGas(maxBytes, maxGas int64) types.Txs {
 
 		// Check total gas requirement.
 		// If maxGas is negative, skip this check.
-		// Since newTotalGas < masGas, which
-		// must be non-negative, it follows that this won't overflow.
-		newTotalGas := totalGas + memTx.gasWanted
-		if maxGas > -1 && newTotalGas > maxGas {
+		// The comparison is made before adding: totalGas <= maxGas holds here,
+		// so for a positive gasWanted maxGas-gasWanted cannot overflow, whereas
+		// totalGas+gasWanted can (and would wrap to a negative total that
+		// passes the limit).
+		if maxGas > -1 && memTx.gasWanted > 0 && totalGas > maxGas-memTx.gasWanted {
 			return txs[:len(txs)-1]
 		}
-		totalGas = newTotalGas
+		totalGas += memTx.gasWanted
 	}
 	return txs
 }
